@@ -729,3 +729,101 @@ pub fn literal_family(rng: &mut Rng) -> Shape {
     p.lines.push(Line::Data(Data::Space(4096)));
     Shape { name: "boundary-literals", prog: p }
 }
+
+/// CSR traffic (C01, C12): a straight-line function over one or two user CSRs with every write form
+/// (csrrw with rd = zero / another register / the same register, csrrs with zero and non-zero source,
+/// csrrwi), reads in between, and word / half / byte stores and loads through a pointer taken from a
+/// CSR, at overlapping offsets; optionally a call to a function that rewrites the CSR.
+pub fn csr_family(rng: &mut Rng) -> Shape {
+    let mut p = Program::default();
+    let csrs = [0x40u32, 0x43];
+    let regs = [5u8, 6, 7, 28, 29, 9, 18];
+    p.label("main");
+    p.push(Ins::La { rd: 5, label: "area".into() });
+    p.push(Ins::Csrrw { rd: ZERO, csr: 0x40, rs1: 5 });
+    p.push(Ins::li(A0, rng.range(0, 9) as i32));
+    p.push(Ins::call("work"));
+    p.push(Ins::mv(A0, A0));
+    exit(&mut p);
+    p.label("work");
+    let with_call = rng.chance(0.4);
+    if with_call {
+        p.push(Ins::addi(SP, SP, -16));
+        p.push(Ins::sw(RA, 12, SP));
+    }
+    for _ in 0..6 + rng.below(12) {
+        let csr = csrs[rng.below(2)];
+        let a = regs[rng.below(regs.len())];
+        let b = regs[rng.below(regs.len())];
+        match rng.below(14) {
+            0 => p.push(Ins::Csrrwi { rd: *rng.pick(&[ZERO, a]), csr, imm: rng.range(0, 31) as i32 }),
+            1 => p.push(Ins::Csrrw { rd: ZERO, csr, rs1: a }),
+            2 => p.push(Ins::Csrrw { rd: a, csr, rs1: a }),
+            3 => p.push(Ins::Csrrw { rd: b, csr, rs1: a }),
+            4 => p.push(Ins::Csrrs { rd: a, csr, rs1: ZERO }),
+            5 => p.push(Ins::Csrrs { rd: *rng.pick(&[ZERO, b]), csr, rs1: a }),
+            6 => p.push(Ins::li(a, rng.range(-5, 300) as i32)),
+            7 => {
+                // a pointer from the CSR that was set up in main, and a store through it
+                p.push(Ins::Csrrs { rd: a, csr: 0x40, rs1: ZERO });
+                p.push(Ins::Store { w: *rng.pick(&[StoreW::W, StoreW::W, StoreW::H, StoreW::B]), rs2: b, off: *rng.pick(&[0, 4, 2, 1, 8]), base: a });
+            }
+            8 => {
+                p.push(Ins::Csrrs { rd: a, csr: 0x40, rs1: ZERO });
+                p.push(Ins::Load { w: *rng.pick(&[LoadW::W, LoadW::W, LoadW::H, LoadW::B, LoadW::Bu]), rd: b, off: *rng.pick(&[0, 4, 2, 1, 8]), base: a });
+            }
+            9 => p.push(Ins::La { rd: a, label: "area".into() }),
+            10 if with_call => p.push(Ins::call("scramble")),
+            11 => p.push(Ins::Alu { op: AluOp::Add, rd: a, rs1: a, rs2: b }),
+            12 => p.push(Ins::lw(a, 0, A0)),
+            _ => p.push(Ins::addi(a, b, rng.range(-3, 3) as i32)),
+        }
+    }
+    p.push(Ins::Alu { op: AluOp::Add, rd: A0, rs1: 5, rs2: 6 });
+    if with_call {
+        p.push(Ins::lw(RA, 12, SP));
+        p.push(Ins::addi(SP, SP, 16));
+    }
+    p.push(Ins::ret());
+    p.label("scramble");
+    p.push(Ins::La { rd: 31, label: "other".into() });
+    p.push(Ins::Csrrw { rd: ZERO, csr: *rng.pick(&[0x40u32, 0x43]), rs1: 31 });
+    p.push(Ins::ret());
+    p.lines.push(Line::SecData);
+    p.label("area");
+    p.lines.push(Line::Data(Data::Word(vec![0x1234, 0x55, 7, 9])));
+    p.label("other");
+    p.lines.push(Line::Data(Data::Word(vec![3, 4, 5, 6])));
+    Shape { name: "csr-traffic", prog: p }
+}
+
+/// A function that loops back to its own entry label (C01, C03, C11): what is known "at entry" is
+/// known once, not again on every turn of the loop.
+pub fn self_loop_family(rng: &mut Rng) -> Shape {
+    let mut p = Program::default();
+    p.label("main");
+    p.push(Ins::li(A0, 1 + rng.range(0, 3) as i32));
+    p.push(Ins::call("again"));
+    p.push(Ins::mv(A0, A0));
+    exit(&mut p);
+    p.label("again");
+    if rng.chance(0.5) {
+        p.label("again_loop");
+    }
+    let s = *rng.pick(&[8u8, 9, 18]);
+    for _ in 0..1 + rng.below(3) {
+        match rng.below(4) {
+            0 => p.push(Ins::addi(s, s, 1)),
+            1 => p.push(Ins::addi(SP, SP, *rng.pick(&[-16, -4]))),
+            2 => p.push(Ins::addi(*rng.pick(&[5u8, 6]), s, 2)),
+            _ => p.push(Ins::sw(s, -4, SP)),
+        }
+    }
+    p.push(Ins::addi(A0, A0, -1));
+    p.push(Ins::Branch { c: Cond::Lt, rs1: ZERO, rs2: A0, label: "again".into() });
+    if rng.chance(0.5) {
+        p.push(Ins::addi(SP, SP, 16));
+    }
+    p.push(Ins::ret());
+    Shape { name: "function-loops-to-its-own-entry", prog: p }
+}
